@@ -350,6 +350,9 @@ pub struct SetMeta {
     /// Lines that are valid invocations by construction of the declaration (the generator
     /// knows what it declared): typed exactly like this, they must parse and reach a typed handler
     pub valid_lines: &'static [&'static str],
+    /// Lines that the derived parser must reject by construction of the declaration (undeclared
+    /// option / unparsable value / missing required argument of a command that declares fields)
+    pub invalid_lines: &'static [&'static str],
 }
 
 /// Set 0 through `RawCommand::processor`
